@@ -21,7 +21,8 @@ enum { BAD_NULL_OBJ_KEY, BAD_NULL_OBJ_TKEY, BAD_NULL_OBJ_TWEAK, BAD_NULL_OBJ_CTR
        BAD_NULL_KEY, BAD_NULL_TKEY, BAD_KEY_SHORT, BAD_KEY_LONG, BAD_TKEY_SHORT, BAD_TKEY_LONG,
        BAD_TWEAK_LEN0, BAD_TWEAK_LONG, BAD_CTR_LONG, BAD_ENC_NULL_OUT, BAD_ENC_NULL_IN,
        BAD_ENC_NULL_BOTH, BAD_ENC_NULL_OUT0, BAD_ENC_NULL_IN0, BAD_MANTIS_ROUNDS4, BAD_MANTIS_ROUNDS9,
-       BAD_MANTIS_KEY15, BAD_MANTIS_KEY17, BAD_MANTIS_TWEAK7, BAD_MANTIS_TWEAK9, BAD_NCLASSES };
+       BAD_MANTIS_KEY15, BAD_MANTIS_KEY17, BAD_MANTIS_TWEAK7, BAD_MANTIS_TWEAK9,
+       BAD_TWEAK_NULL_LEN0, BAD_TWEAK_NULL_LONG, BAD_CTR_NULL_LONG, BAD_MANTIS_TWEAK_NULL7, BAD_MANTIS_TWEAK_NULL9, BAD_NCLASSES };
 static const char *BADNAME[BAD_NCLASSES] = {
     "set_key(NULL object)", "set_tweaked_key(NULL object)", "set_tweak(NULL object)", "set_counter(NULL object)",
     "encrypt(NULL object)", "set_key(NULL key)", "set_tweaked_key(NULL key)", "set_key(len below range)",
@@ -29,7 +30,8 @@ static const char *BADNAME[BAD_NCLASSES] = {
     "set_tweak(len 0)", "set_tweak(len block+1)", "set_counter(len block+1)", "encrypt(NULL output, 1 byte)",
     "encrypt(NULL input, 1 byte)", "encrypt(NULL output and input, 1 byte)", "encrypt(NULL output, 0 bytes)",
     "encrypt(NULL input, 0 bytes)", "set_key(rounds 4)", "set_key(rounds 9)", "set_key(15-byte key)",
-    "set_key(17-byte key)", "set_tweak(len 7)", "set_tweak(len 9)" };
+    "set_key(17-byte key)", "set_tweak(len 7)", "set_tweak(len 9)",
+    "set_tweak(NULL, len 0)", "set_tweak(NULL, len block+1)", "set_counter(NULL, len block+1)", "set_tweak(NULL, len 7)", "set_tweak(NULL, len 9)" };
 
 /* ---------------- configuration ---------------- */
 static int g_mode;
@@ -138,9 +140,10 @@ static void build_alphabet(void)
     if (g_mode != MODE_C05) add_op(T_CLEANUP, 0, 0);
     if (g_mode != MODE_C05)
         for (i = 0; i < BAD_NCLASSES; ++i) {
-            int mantis_only = i >= BAD_MANTIS_ROUNDS4;
+            int mantis_only = (i >= BAD_MANTIS_ROUNDS4 && i <= BAD_MANTIS_TWEAK9) || i == BAD_MANTIS_TWEAK_NULL7 || i == BAD_MANTIS_TWEAK_NULL9;
             int skinny_only = (i == BAD_NULL_OBJ_TKEY || i == BAD_NULL_TKEY || i == BAD_KEY_SHORT || i == BAD_KEY_LONG ||
-                               i == BAD_TKEY_SHORT || i == BAD_TKEY_LONG || i == BAD_TWEAK_LEN0 || i == BAD_TWEAK_LONG);
+                               i == BAD_TKEY_SHORT || i == BAD_TKEY_LONG || i == BAD_TWEAK_LEN0 || i == BAD_TWEAK_LONG ||
+                               i == BAD_TWEAK_NULL_LEN0 || i == BAD_TWEAK_NULL_LONG);
             if (mantis_only && g_c != CK_MANTIS) continue;
             if (skinny_only && g_c == CK_MANTIS) continue;
             add_op(T_BAD, i, 0);
@@ -242,6 +245,7 @@ static void model_block(uint8_t *ks)
     size_t slot;
     h = fnv1a(W.tweak, 16, h); h = fnv1a(W.counter, 16, h);
     h = fnv1a(&W.keyed, sizeof(int), h); h = fnv1a(&W.klen, sizeof(int), h); h = fnv1a(&W.rounds, sizeof(int), h);
+    { int cipher = (int)g_c; h = fnv1a(&cipher, sizeof(int), h); }   /* one process may explore worlds of several ciphers */
     if (!h) h = 1;
     slot = (size_t)(h >> 7) & 8191;
     if (cache[slot].h == h) { memcpy(ks, cache[slot].ks, 16); return; }
@@ -483,6 +487,11 @@ static void w_apply(int opi, int check)
             case BAD_MANTIS_KEY17: r[i] = ctr_set_key(g_c, ob, kk, 17, 5); break;
             case BAD_MANTIS_TWEAK7: r[i] = ctr_set_tweak(g_c, ob, kk, 7); break;
             case BAD_MANTIS_TWEAK9: r[i] = ctr_set_tweak(g_c, ob, kk, 9); break;
+            case BAD_TWEAK_NULL_LEN0: r[i] = ctr_set_tweak(g_c, ob, NULL, 0); break;
+            case BAD_TWEAK_NULL_LONG: r[i] = ctr_set_tweak(g_c, ob, NULL, (unsigned)B + 1); break;
+            case BAD_CTR_NULL_LONG: r[i] = ctr_set_counter(g_c, ob, NULL, (unsigned)B + 1); break;
+            case BAD_MANTIS_TWEAK_NULL7: r[i] = ctr_set_tweak(g_c, ob, NULL, 7); break;
+            case BAD_MANTIS_TWEAK_NULL9: r[i] = ctr_set_tweak(g_c, ob, NULL, 9); break;
             }
         }
         if (check) {
